@@ -73,3 +73,133 @@ theorem scan_str (v : Ver) (h : WF v) : scan v.str = some v := by
     simp [scan, hws, hc]
 
 end V
+
+namespace V
+open Py
+
+/-! ### everything `scan` returns is well formed -/
+
+theorem isDigit_lower (c : Nat) : isDigit (lowerAscii c) = isDigit c := by
+  by_cases hu : 65 ≤ c ∧ c ≤ 90
+  · have h0 : isUpperAscii c = true := by simp [isUpperAscii, hu]
+    have a : isDigit (c + 32) = false := by simp [isDigit]; omega
+    have b : isDigit c = false := by simp [isDigit]; omega
+    simp [lowerAscii, h0, a, b]
+  · have h0 : isUpperAscii c = false := by simp [isUpperAscii]; omega
+    simp [lowerAscii, h0]
+
+theorem lower_of_local (c : Nat) (hc : isLocalChar c = true) :
+    (isDigit (lowerAscii c) || isLowerAscii (lowerAscii c)) = true := by
+  by_cases hu : 65 ≤ c ∧ c ≤ 90
+  · have h0 : isUpperAscii c = true := by simp [isUpperAscii, hu]
+    have a : isLowerAscii (c + 32) = true := by simp [isLowerAscii]; omega
+    simp [lowerAscii, h0, a]
+  · have h0 : isUpperAscii c = false := by simp [isUpperAscii]; omega
+    simp [isLocalChar, isAlphaAscii, h0] at hc
+    simpa [lowerAscii, h0] using hc
+
+theorem all_digit_lower (p : Str) : (lowerStr p).all isDigit = p.all isDigit := by
+  induction p with
+  | nil => rfl
+  | cons c cs ih => simp [lowerStr, isDigit_lower] at ih ⊢; rw [ih]
+
+theorem localSeg_wf (p : Str) (h1 : p ≠ []) (h2 : ∀ c ∈ p, isLocalChar c = true) : segWF (localSeg p) = true := by
+  unfold localSeg
+  split
+  · rfl
+  · rename_i hnd
+    simp only [segWF, all_digit_lower, Bool.and_eq_true, Bool.not_eq_true']
+    refine ⟨⟨?_, ?_⟩, by simpa using hnd⟩
+    · cases p with
+      | nil => exact absurd rfl h1
+      | cons c cs => simp [lowerStr]
+    · simp only [lowerStr, List.all_map, List.all_eq_true]
+      intro c hc; exact lower_of_local c (h2 c hc)
+
+theorem takeWhile_local (r : Str) : ∀ c ∈ r.takeWhile isLocalChar, isLocalChar c = true := by
+  induction r with
+  | nil => simp
+  | cons a as ih =>
+    by_cases ha : isLocalChar a = true
+    · intro c hc
+      simp [List.takeWhile, ha] at hc
+      rcases hc with rfl | hc
+      · exact ha
+      · exact ih c hc
+    · simp [List.takeWhile, ha]
+
+theorem scanLocalTail_wf (fuel : Nat) (s : Str) :
+    ∀ p ∈ (scanLocalTail fuel s).1, p ≠ [] ∧ ∀ c ∈ p, isLocalChar c = true := by
+  induction fuel generalizing s with
+  | zero => simp [scanLocalTail]
+  | succ f ih =>
+    intro p hp
+    cases s with
+    | nil => simp [scanLocalTail] at hp
+    | cons c r =>
+      simp only [scanLocalTail] at hp
+      by_cases hs : isSep c = true
+      · by_cases he : r.takeWhile isLocalChar = []
+        · simp [hs, he] at hp
+        · simp [hs, he] at hp
+          rcases hp with rfl | hp
+          · exact ⟨he, takeWhile_local r⟩
+          · exact ih _ p hp
+      · simp [hs] at hp
+
+theorem scanLocal_wf (r : Str) (loc : Option (List LSeg)) (r' : Str) (h : scanLocal r = some (loc, r')) :
+    locWF loc = true := by
+  cases r with
+  | nil => simp [scanLocal] at h; obtain ⟨h, _⟩ := h; subst h; rfl
+  | cons c r1 =>
+    by_cases hc : c = 43
+    · subst hc
+      simp only [scanLocal] at h
+      by_cases he : r1.takeWhile isLocalChar = []
+      · simp [he] at h
+      · simp [he] at h
+        obtain ⟨h, _⟩ := h
+        subst h
+        simp only [locWF, List.isEmpty_cons, Bool.not_false, List.all_cons, Bool.true_and,
+          Bool.and_eq_true, List.all_map, List.all_eq_true]
+        refine ⟨localSeg_wf _ he (takeWhile_local r1), ?_⟩
+        intro p hp
+        have := scanLocalTail_wf _ _ p hp
+        exact localSeg_wf p this.1 this.2
+    · have : scanLocal (c :: r1) = some (none, c :: r1) := by
+        unfold scanLocal
+        split
+        · rename_i heq; simp at heq; exact absurd heq.1 hc
+        · rfl
+      rw [this] at h
+      simp at h; obtain ⟨h, _⟩ := h; subst h; rfl
+
+theorem scanRest_wf (e f : Nat) (r : Str) (v : Ver) (r' : Str) (h : scanRest e f r = some (v, r')) : WF v := by
+  unfold scanRest at h
+  simp only [] at h
+  split at h
+  · simp at h
+  · rename_i loc r2 hl
+    simp only [Option.some.injEq, Prod.mk.injEq] at h
+    obtain ⟨h, _⟩ := h; subst h
+    simp [WF, Ver.wf, scanLocal_wf _ _ _ hl]
+
+theorem scanCore_wf (s : Str) (v : Ver) (r : Str) (h : scanCore s = some (v, r)) : WF v := by
+  rw [scanCore_eq] at h
+  split at h
+  · simp at h
+  · split at h
+    · simp at h
+    · exact scanRest_wf _ _ _ _ _ h
+
+/-- every value the scanner returns is well formed -/
+theorem scan_wf (s : Str) (v : Ver) (h : scan s = some v) : WF v := by
+  unfold scan at h
+  split at h
+  · simp at h
+  · rename_i w r hc
+    split at h
+    · simp only [Option.some.injEq] at h; subst h; exact scanCore_wf _ _ _ hc
+    · simp at h
+
+end V
